@@ -174,9 +174,8 @@ func runPubSubRaw() (string, []explore.Violation) {
 				vs = append(vs, explore.Violation{Signature: "pubsubraw-payload-altered", Detail: fmt.Sprintf("sequence %v: a delivered payload of %d bytes matches nothing sent", seq, len(x))})
 			}
 		}
-		if len(seq) == 2 && seq[0].from == seq[1].from && seq[0].from != 0 && len(g) == 2 && !bytes.Equal(g[0], want[0]) {
-			vs = append(vs, explore.Violation{Signature: "pubsubraw-sender-order-changed", Detail: fmt.Sprintf("sequence %v", seq)})
-		}
+		// delivery order is not part of the statement (and gossip may deliver two large messages of one
+		// sender over different paths): payloads are compared as a multiset only
 	}
 	mu.Lock()
 	defer mu.Unlock()
